@@ -6,6 +6,7 @@ import SciVerif.Lemmas.C17q
 import SciVerif.Lemmas.C17i
 import SciVerif.Lemmas.C17j
 import SciVerif.Lemmas.C17k
+import SciVerif.Lemmas.C17l
 import SciVerif.Generated.C17Units
 
 /-!
@@ -647,6 +648,48 @@ example : runNB unitTable Env.empty
      .base (.stmt 2 ['b'] (.defn [['g'], ['b']] .float [] (.inj none (.exact [['a']]) []) none)),
      .imp 2 [] [['g']] none .all,
      .base (.prop [['g'], ['g'], ['b']] .constant)] = true := by
+  decide +kernel
+
+/-- The invariant of the refinement theorems as a computation: `invB` (a `Bool`-valued function of
+    the unit table and the environment: every stored node and every node of every remote source
+    is typed, holds a value that its own cast leaves unchanged, has no pending slice, carries a
+    unit of the table — none on str/bool/int) is sound AND complete for `Inv`.  Equality of values
+    is decided by the structural test `valEqB` (`Val` is a nested inductive).  With it `Inv` of the
+    initial environment of a run — the base environment `DIP(base)` starts from, the parsed remote
+    sources — is evaluated by the driver for every generated program instead of being assumed. -/
+theorem C17_inv_decidable (tbl : UnitTable) (env : Env) : invB tbl env = true ↔ Inv tbl env :=
+  invB_iff tbl env
+
+/-- Proved part, nested programs from ANY initial environment, no `Prop`-valued hypothesis left
+    about the environment or the program: if the computation `invB` accepts the initial environment
+    and the computation `runNB` accepts the program there, then whenever the specification accepts
+    the statements, the main loop accepts the lines, ends in the abstraction of the specification's
+    result, and `invB` accepts the final environment (so the result can serve as the base of a
+    further program).  Still missing from `C17_refinement_statement`: as for
+    `C17_refinement_nested_imports_partial` (declared nodes — `invB` refuses an environment that
+    holds one —, hosts by reference, imports inside `@case` branches). -/
+theorem C17_refinement_env_checked_partial (tbl : UnitTable) (lines : List NLine) (items : List Item)
+    (env : Env) (s' : SEnv) (hinv : invB tbl env = true) (hchk : runNB tbl env lines = true)
+    (hc : lines.mapM NLine.item = some items)
+    (h : sRun tbl (absEnv env) (lines.filterMap NLine.stmt?) = .ok s') :
+    ∃ env', items.foldlM (step tbl) env = .ok env' ∧ absEnv env' = s' ∧ invB tbl env' = true := by
+  obtain ⟨env', h1, h2, h3⟩ := refine_runN tbl lines items env s' ((invB_iff tbl env).1 hinv)
+    (runNB_sound tbl env lines hchk) hc h
+  exact ⟨env', h1, h2, (invB_iff tbl env').2 h3⟩
+
+/-- `invB` accepts a non-trivial environment (a float with unit, a 2-element integer array, a
+    remote source holding a string) and, there, `runNB` accepts a program that injects from the
+    source; `invB` refuses a declared node (no value), a value that does not conform to the
+    declared type, and a unit on a string -/
+example : let env : Env := { Env.empty with
+      nodes := [{ blank ['a'] .float with value := some (.num 3), unitsRaw := some ['m'] },
+                { blank ['v'] .int with dims := [(some 2, some 2)], value := some (.arr [.num 1, .num 2]) }],
+      sources := [(['s'], [{ blank ['t'] .str with value := some (.str ['x']) }])] }
+    invB unitTable env = true ∧
+    runNB unitTable env [.base (.stmt 0 ['b'] (.defn [['b']] .str [] (.inj (some ['s']) (.exact [['t']]) []) none))] = true ∧
+    invB unitTable { env with nodes := [blank ['d'] .float] } = false ∧
+    invB unitTable { env with nodes := [{ blank ['d'] .float with value := some (.str ['x']) }] } = false ∧
+    invB unitTable { env with nodes := [{ blank ['d'] .str with value := some (.str ['x']), unitsRaw := some ['m'] }] } = false := by
   decide +kernel
 
 /-- The case the import side condition of `InFrag` excludes, as a theorem of its own: when the
